@@ -12,6 +12,8 @@ QUICK = ["UTC", "America/Santiago", "America/Havana", "America/Sao_Paulo", "Atla
 
 def key(conj, rec):
     c = rec["civil"]
+    if "y" not in c:      # (the expected value is 'no date': a document without one)
+        return "%s:%s:zone=%s:class=%s:%s" % (conj, rec["op"], rec["zone"], rec.get("class"), c.get("t"))
     return "%s:%s:zone=%s:class=%s:%04d-%02d-%02d" % (conj, rec["op"], rec["zone"], rec.get("class"), c["y"], c["m"], c["d"])
 
 
